@@ -169,11 +169,18 @@ Specials == {XN(0), XN(1), XN(2), <<1, 0, 1>>} \cup (IF Thorough THEN {<<2, 0, 1
 XSeqs == UNION {[1..L -> Specials] : L \in 0..4}
 GridSpecialCases == {[op |-> "FpGridNew", pts |-> s] : s \in XSeqs}
 
+\* numerical integration across logically different grids must be refused (C08)
+IntForeignCases(a) ==
+  IF a.g = E4 /\ a.o = 1 /\ a.s = 0
+  THEN {[op |-> "FpIntX", n |-> 2, w |-> <<ROne>>, a |-> a, b |-> FpSpl(S, 1, 0)] :
+          S \in UNION {{SupWhole(v), Sup(v, 0, 2), SupEmptyOn(v)} : v \in GridVariants(E4)}}
+  ELSE {}
+
 Init == \/ st = [ph |-> 0, kind |-> "x"]
         \/ \E k \in FpKnots : st = [ph |-> 0, kind |-> "k", k |-> k]
         \/ \E g \in FpGrids : \E a \in SplsOn(g) : st = [ph |-> 0, kind |-> "a", a |-> a]
 Next == /\ st.ph = 0
-        /\ \E c \in (IF st.kind = "k" THEN GenCases(st.k) ELSE IF st.kind = "x" THEN GridSpecialCases ELSE SplCases(st.a)) :
+        /\ \E c \in (IF st.kind = "k" THEN GenCases(st.k) ELSE IF st.kind = "x" THEN GridSpecialCases ELSE SplCases(st.a) \cup IntForeignCases(st.a)) :
               st' = [ph |-> 1, c |-> c]
 Spec == Init /\ [][Next]_st
 Emit == (st'.ph = 1) => CSVWrite("%1$s", <<ToJson(st'.c)>>, OutFile)
@@ -190,5 +197,6 @@ MagnitudeOK == st.ph = 1 =>
     [] c.op = "FpApply" -> DomSpl(c.E.app, c.S.app) /\ RLe(RAbs(c.E.lf), c.S.lf)
     [] c.op = "FpBF" -> RLe(RAbs(c.E), c.S)
     [] c.op = "FpInt" -> RLe(RAbs(c.E), c.S)
+    [] c.op = "FpIntX" -> c.a.g # c.b.g
     [] c.op = "FpGridNew" -> (XGridAcceptsI(c.pts) <=> XGridValid(c.pts))     \* the scan accepts exactly the valid grids
 =============================================================================
